@@ -5,6 +5,8 @@ mpgameserver/serializable.py and mpgameserver/http_server.py into Gallina.
   serializable.py -> coq/Gen/SerKernels.v
       MAX_BYTES_LENGTH, MAX_ARRAY_LENGTH, every SerializableBaseTypes id,
       serialize_bool / serialize_int / serialize_null / serialize_bytes (the stream writers),
+      serialize_map / serialize_seq / serialize_set up to the element loop (as functions of len(value)),
+      the length guards of deserialize_string / bytes / map / seq / set,
       the scalar reader lambdas and the deserialize_types table (dict literal + later
       subscript assignments)
   http_server.py -> coq/Gen/WsKernels.v
@@ -98,6 +100,8 @@ class Cx:
         self.cls_consts = cls_consts if cls_consts is not None else {}   # (Class, attr) -> coq name
         self.funcs = funcs or {}         # python function name -> coq name of a translated writer
         self.acc = None                  # name of the python accumulator ('stream' or a list variable)
+        self.sized = {}                  # parameter standing for a container: len(<param>) -> coq variable
+        self.int_writer = None           # coq name serialize_value(stream, <int expr>) dispatches to
         self.blocals = set()             # local variables holding bytes built by struct.pack
         self.enum_locals = set()         # local variables holding a bytes-valued enum member (x.value = the bytes)
         self.enum_bytes = {}             # (Class, MEMBER) -> coq name of the member's bytes value
@@ -151,6 +155,8 @@ def iexpr(n, cx):
             a = n.args[0]
             if isinstance(a, ast.Name) and a.id in cx.bytes:
                 return "(len %s)" % a.id
+            if isinstance(a, ast.Name) and a.id in cx.sized:
+                return cx.sized[a.id]
             fail(n, "len of a non-bytes value")
         if n.func.id == "WebSocketOpCode":
             # the enum conversion is left to the caller: the kernel returns the integer
@@ -271,6 +277,11 @@ def stmts(body, cx, fin):
                 and isinstance(c.args[0], ast.Name) and c.args[0].id == cx.acc:
             return "(do w <- %s %s; let out := out ++ w in %s)" % (cx.funcs[c.func.id], iexpr(c.args[1], cx),
                                                                   stmts(rest, cx, fin))
+        if isinstance(c.func, ast.Name) and c.func.id == "serialize_value" and cx.int_writer and len(c.args) == 2 \
+                and not c.keywords and isinstance(c.args[0], ast.Name) and c.args[0].id == cx.acc:
+            # an int argument: serialize_types[int] (checked by the caller) under serialize_value's struct.error -> ValueError
+            return "(do w <- wrap_struct (%s %s); let out := out ++ w in %s)" % (cx.int_writer, iexpr(c.args[1], cx),
+                                                                                stmts(rest, cx, fin))
         fail(s, "call statement")
     if isinstance(s, ast.If):
         c = bexpr(s.test, cx)
@@ -365,6 +376,83 @@ def translate_ser(path):
     writer("serialize_int", "gen_serialize_int", "int")
     writer("serialize_null", "gen_serialize_null", "int")
     writer("serialize_bytes", "gen_serialize_bytes", "bytes")
+
+    # serialize_value(stream, <int>) -> serialize_types[int](stream, <int>) with struct.error turned into ValueError:
+    # check the two facts the container-header kernels rely on
+    st = [s for s in mod.body if isinstance(s, ast.Assign) and len(s.targets) == 1 and isinstance(s.targets[0], ast.Name)
+          and s.targets[0].id == "serialize_types" and isinstance(s.value, ast.Dict)]
+    if len(st) != 1:
+        raise Untranslatable("serialize_types: expected exactly one dict literal")
+    intmap = [v for k, v in zip(st[0].value.keys, st[0].value.values) if isinstance(k, ast.Name) and k.id == "int"]
+    if len(intmap) != 1 or not (isinstance(intmap[0], ast.Name) and intmap[0].id == "serialize_int"):
+        raise Untranslatable("serialize_types[int] is not serialize_int")
+    sv = find(mod.body, ast.FunctionDef, "serialize_value")
+    hs = [h for n in ast.walk(sv) if isinstance(n, ast.Try) for h in n.handlers]
+    if not any(dotted(h.type) == "struct.error" for h in hs if h.type is not None) or \
+            not any(isinstance(n, ast.Call) and isinstance(n.func, ast.Name) and n.func.id == "ValueError" for n in ast.walk(sv)):
+        raise Untranslatable("serialize_value no longer turns struct.error into ValueError")
+
+    # container writers: everything before the element loop, as a function of len(value)
+    for name in ("serialize_map", "serialize_seq", "serialize_set"):
+        f = find(mod.body, ast.FunctionDef, name)
+        args, kw = argnames(f)
+        if args != ["stream", "value"] or kw:
+            fail(f, "signature of %s" % name)
+        body = [s for s in f.body if not is_docstring(s)]
+        loops = [i for i, s in enumerate(body) if isinstance(s, ast.For)]
+        if len(loops) != 1 or loops[0] != len(body) - 1:
+            fail(f, "%s: expected the element loop as the last statement" % name)
+        cx = Cx([], mod_consts=mod_consts, cls_consts=cls_consts)
+        cx.acc = "stream"
+        cx.sized = {"value": "n"}
+        cx.int_writer = "gen_serialize_int"
+        out.append("Definition gen_%s_header (n : Z) : res (list byte) := (let out := @nil byte in %s)." %
+                   (name, stmts(body[:-1], cx, "(Ok out)")))
+
+    # decoder length guards: length = deserialize_value(...); if <test on length>: raise ...; ...
+    for name in ("deserialize_string", "deserialize_bytes", "deserialize_map", "deserialize_seq", "deserialize_set"):
+        f = find(mod.body, ast.FunctionDef, name)
+        args, kw = argnames(f)
+        if args != ["stream"] or kw != "kwargs":
+            fail(f, "signature of %s" % name)
+        body = [s for s in f.body if not is_docstring(s)]
+        s0 = body[0]
+        if not (isinstance(s0, ast.Assign) and len(s0.targets) == 1 and isinstance(s0.targets[0], ast.Name)
+                and s0.targets[0].id == "length" and isinstance(s0.value, ast.Call)
+                and isinstance(s0.value.func, ast.Name) and s0.value.func.id == "deserialize_value"):
+            fail(s0, "%s: first statement is not length = deserialize_value(...)" % name)
+        guards = []
+        for s in body[1:]:
+            if isinstance(s, ast.If) and not s.orelse and len(s.body) == 1 and isinstance(s.body[0], ast.Raise):
+                guards.append(s)
+            else:
+                break
+        rest_names = {n.id for s in body[1 + len(guards):] for n in ast.walk(s) if isinstance(n, ast.Name)}
+        if not guards:
+            fail(f, "%s: no length guard" % name)
+        for s in body[1 + len(guards):]:
+            for n in ast.walk(s):
+                if isinstance(n, (ast.Raise, ast.If)) and name != "deserialize_seq":
+                    fail(n, "%s: a check after the guards" % name)
+        cx = Cx(["length"], mod_consts=mod_consts, cls_consts=cls_consts)
+        term = "(Ok length)"
+        for g in reversed(guards):
+            tst = g.test
+            # not isinstance(length, int)  ->  negb is_int
+            if isinstance(tst, ast.UnaryOp) and isinstance(tst.op, ast.Not) and isinstance(tst.operand, ast.Call) \
+                    and isinstance(tst.operand.func, ast.Name) and tst.operand.func.id == "isinstance" \
+                    and len(tst.operand.args) == 2 and isinstance(tst.operand.args[0], ast.Name) \
+                    and tst.operand.args[0].id == "length" and isinstance(tst.operand.args[1], ast.Name) \
+                    and tst.operand.args[1].id == "int":
+                c = "(negb is_int)"
+            else:
+                c = bexpr(tst, cx)
+            e = g.body[0].exc
+            nm = e.func.id if isinstance(e, ast.Call) and isinstance(e.func, ast.Name) else None
+            if nm not in EXC:
+                fail(g, "raise in a length guard")
+            term = "(if %s then (Err %s) else %s)" % (c, EXC[nm], term)
+        out.append("Definition gen_%s_guard (is_int : bool) (length : Z) : res Z := %s." % (name, term))
 
     # the scalar reader lambdas
     readers = {}
